@@ -209,6 +209,9 @@ func c14Relations(r *engine.Run, g geom.Geometry, note string) {
 		if a, b := g.Area(geom.WithTransform(f), geom.SignedArea), h.Area(geom.SignedArea); !closeRel(a, b, m2*m2) {
 			bad("WithTransform.signed."+name, fmt.Sprint(a, b))
 		}
+		if a, b := g.Area(geom.SignedArea, geom.WithTransform(f)), h.Area(geom.SignedArea); !closeRel(a, b, m2*m2) {
+			bad("WithTransform.signedFirst."+name, fmt.Sprint(a, b))
+		}
 	}
 }
 
@@ -265,6 +268,29 @@ func c14Main(r *engine.Run) {
 				}
 			}
 		}
+	}
+	// MultiPolygons whose members have holes and different centroids (weights must be the members' areas, holes removed)
+	donutAt := func(x int, rev bool) geom.Polygon {
+		sh := []universe.LPt{{x, 0}, {x + 4, 0}, {x + 4, 4}, {x, 4}, {x, 0}}
+		ho := []universe.LPt{{x + 1, 1}, {x + 1, 3}, {x + 3, 3}, {x + 3, 1}, {x + 1, 1}}
+		if rev {
+			return id.Polygon(rotateRing(sh, 1, true), rotateRing(ho, 2, true))
+		}
+		return id.Polygon(sh, ho)
+	}
+	plainAt := func(x, w int) geom.Polygon {
+		return id.Polygon([]universe.LPt{{x, 0}, {x + w, 0}, {x + w, 2}, {x, 2}, {x, 0}})
+	}
+	for _, ms := range [][]geom.Polygon{
+		{donutAt(0, false), plainAt(6, 2)}, {plainAt(6, 2), donutAt(0, true)}, {donutAt(0, false), donutAt(10, true), plainAt(6, 1)},
+		{donutAt(0, true), {}, plainAt(5, 4)}, {plainAt(-4, 3), donutAt(0, false), plainAt(6, 2)},
+	} {
+		add(geom.NewMultiPolygon(ms).AsGeometry(), "multipolygon with hole members")
+		var gs []geom.Geometry
+		for _, m := range ms {
+			gs = append(gs, m.AsGeometry())
+		}
+		add(geom.NewGeometryCollection(gs).AsGeometry(), "collection of polygons with holes")
 	}
 	// mixed-dimension / nested / empty-member collections
 	sqp := id.Polygon([]universe.LPt{{0, 0}, {2, 0}, {2, 2}, {0, 2}, {0, 0}}).AsGeometry()
